@@ -18,7 +18,7 @@ RULE = ("VMX: every single device of bus {scsi,sata,ide,nvme} x bus number {0,1,
         "with <= 3 HardDisk over format x type x nesting depth <= 3 plus DVD / floppy images. PVS: every interleaving of <= 2 "
         "Hdd, <= 2 CdRom, <= 1 Fdd. non-trivial = document with a non-disk device or more than one disk")
 ASSUMPTIONS = [
-    "VMX device ids are numeric (<bus><n>:<m>); a hard disk is a device with a fileName whose deviceType is absent or one of "
+    "VMX device ids are numeric (<bus><n>:<m>); a hard disk is a device with a fileName whose deviceType is absent, empty (the default type) or one of "
     "scsi-hardDisk / ata-hardDisk / disk / rawDisk; the list is reported sorted",
     "VirtualBox: the library documents that it reports hard disks of type Normal in VDI format (any letter case) at any "
     "nesting depth; DVD and floppy images are never reported",
@@ -33,7 +33,7 @@ EXPECT_OUTCOMES = ["vmx", "vmx-dict", "ovf", "vbox", "pvs", "vmx-encrypted", "ov
 
 BUSES = ["scsi", "sata", "ide", "nvme"]
 TYPES = [None, "scsi-hardDisk", "ata-hardDisk", "disk", "rawDisk", "cdrom-image", "cdrom-raw", "atapi-cdrom"]
-DISK_TYPES = {None, "scsi-hardDisk", "ata-hardDisk", "disk", "rawDisk"}
+DISK_TYPES = {None, "", "scsi-hardDisk", "ata-hardDisk", "disk", "rawDisk"}
 NAMES = ["a.vmdk", "Virtual Disk 2.vmdk", "ünï-日本.vmdk"]
 CASINGS = ["lower", "camel", "upper"]
 SPECIAL_CHARS = ["\x0b", "\x0c", "\x1c", "\x1d", "\x1e", "\x85", "\u2028", "\u2029", "\xa0", "\u3000", "\t", "=", "#", "\x00",
@@ -41,7 +41,7 @@ SPECIAL_CHARS = ["\x0b", "\x0c", "\x1c", "\x1d", "\x1e", "\x85", "\u2028", "\u20
 
 
 def shards(tier):
-    out = [{"kind": "pvs-large"}, {"kind": "ovf-foreign-attrs"}, {"kind": "vmx1"}, {"kind": "vmx-chars"}, {"kind": "xml-decl"}, {"kind": "ovf-ids"}, {"kind": "handle-lifecycle"}, {"kind": "vmx-dict"}, {"kind": "vbox"}, {"kind": "pvs"}, {"kind": "vmx-encrypted"},
+    out = [{"kind": "pvs-large"}, {"kind": "ovf-foreign-attrs"}, {"kind": "vmx1"}, {"kind": "vmx-units"}, {"kind": "vmx-chars"}, {"kind": "xml-decl"}, {"kind": "ovf-ids"}, {"kind": "handle-lifecycle"}, {"kind": "vmx-dict"}, {"kind": "vbox"}, {"kind": "pvs"}, {"kind": "vmx-encrypted"},
            {"kind": "ovf-interleaved"}]
     out += [{"kind": "vmx2", "slice": [i, 8]} for i in range(8)]
     out += [{"kind": "vmx3", "slice": [i, 4], "full": tier != "quick"} for i in range(4)]
@@ -91,6 +91,22 @@ def run_shard(shard, ctx):
                 continue
             devs = [[*ps[i], TYPES[ts[i]], f"d{i}-" + NAMES[(j + i) % 3]] for i in range(3)]
             run_case({"kind": "vmx", "devs": devs, "casing": CASINGS[j % 3], "extras": j % 4, "order": list(order)}, ctx)
+    elif kind == "vmx-units":
+        # pairs of device positions that coincide under some flattened numbering of (adapter, unit): units beyond 15 (SATA has
+        # 30 ports, PVSCSI 64 targets, NVMe 15+ namespaces) next to low units of the following adapter, and ids whose digits
+        # concatenate alike; a CD-ROM type or another file name on one of them must never reach the other
+        pairs = [((0, 16), (1, 0)), ((0, 20), (1, 4)), ((0, 29), (1, 13)), ((0, 63), (3, 15)), ((0, 10), (1, 0)), ((1, 10), (11, 0)),
+                 ((0, 1), (0, 10)), ((1, 1), (11, 1)), ((0, 32), (2, 0)), ((0, 8), (1, 0)), ((0, 256), (1, 0))]
+        for bus, (p1, p2), t1, t2, swap in itertools.product(BUSES, pairs, (None, "disk", "cdrom-image"), (None, "cdrom-image"),
+                                                             (False, True)):
+            devs = [[bus, *p1, t1, "first.vmdk"], [bus, *p2, t2, "second.vmdk"]]
+            run_case({"kind": "vmx", "devs": devs[::-1] if swap else devs, "casing": "camel", "extras": 1}, ctx)
+        # an empty device type is the default type, like an absent one; a later empty assignment resets an earlier type
+        for bus, casing in itertools.product(BUSES, CASINGS):
+            run_case({"kind": "vmx", "devs": [[bus, 0, 0, "", "empty-type.vmdk"], ["ide", 1, 1, "cdrom-image", "cd.iso"]],
+                      "casing": casing, "extras": 1}, ctx)
+            run_case({"kind": "vmx", "devs": [[bus, 0, 0, "cdrom-image", "was-cd.vmdk"], [bus, 0, 0, "", "now-disk.vmdk"]],
+                      "casing": casing, "extras": 0}, ctx)
     elif kind == "vmx-chars":
         # every character that some line-splitting or whitespace-trimming routine treats specially, at every position of a
         # disk file name and of a second, non-disk value; the only line separator of the format is LF
